@@ -735,8 +735,9 @@ M('C06', 'Brier sampling weights from the probability of one or more events', 'C
 E('C06', 'Brier sampling weights from a flattened copy of the rates',
   (BRI, '    sampling_weights = numpy.cumsum(forecast_data.filled(0.0).ravel())', '    sampling_weights = numpy.cumsum(numpy.asarray(forecast_data.filled(0.0)).flatten())'))
 M('C13', 'cache receives the catalog as loaded, the pass yields the filtered one', 'C13-D5.cached',
-  (FOR, "            if self.filters:\n                catalog = catalog.filter(self.filters)\n", "            raw = catalog\n            if self.filters:\n                catalog = catalog.filter(self.filters, in_place=False)\n"),
-  (FOR, '            self._catalogs.append(catalog)', '            self._catalogs.append(raw if self.apply_filters else catalog)'))
+  (FOR, "        # apply filtering to catalogs, these can throw errors if not configured properly\n        if self.apply_filters:", "        unfiltered = catalog\n        # apply filtering to catalogs, these can throw errors if not configured properly\n        if self.apply_filters:"),
+  (FOR, "                catalog = catalog.filter(self.filters)\n", "                catalog = catalog.filter(self.filters, in_place=False)\n"),
+  (FOR, '            self._catalogs.append(catalog)', '            self._catalogs.append(unfiltered)'))
 M('C13', 'evaluation loops over the container behind the iterator', 'C13-D10.iterator',
   (CEV, '    # THIS IS NEW - returns the average events in the magnitude bins\n    union_histogram = numpy.zeros(len(forecast.magnitudes))\n    for j, cat in enumerate(forecast):\n',
    '    # THIS IS NEW - returns the average events in the magnitude bins\n    union_histogram = numpy.zeros(len(forecast.magnitudes))\n    for j, cat in enumerate(forecast.catalogs):\n'))
@@ -770,7 +771,10 @@ M('C02', 'non-finite indices reported before the clamp', 'C02-D3.closed',
   (CALC, '    idx = numpy.asarray(idx)  # assure idx is an array\n', '    idx = numpy.asarray(idx)  # assure idx is an array\n    idx[~numpy.isfinite(idx)] = -1\n'))
 M('C02', 'forecast lookup warns for a magnitude below the first edge', 'C11-D3.raise',
   (FOR, '            raise ValueError("mags outside the range of forecast magnitudes.")', '            import warnings\n            warnings.warn("mags outside the range of forecast magnitudes.")'))
-for _p in ('C05', 'C16', 'C06'):
+for _p in ('C16', 'C06'):
     M(_p, 'repair 0025a16 undone: the region fallback waits for an exception the try cannot raise', 'G-DEADHANDLER',
       (BRI, '    except (AttributeError, CSEPCatalogException):', '    except CSEPCatalogException:'))
-E('C05', 'region fallback for a missing attribute only', (BRI, '    except (AttributeError, CSEPCatalogException):', '    except AttributeError:'))
+M('C05', 'repair 0025a16 undone in the L-test: the region fallback waits for an exception the try cannot raise', 'G-DEADHANDLER',
+  (POI, '    # grid catalog onto spatial grid\n    # grid catalog onto spatial grid\n    try:\n        _ = observed_catalog.region.magnitudes\n    except (AttributeError, CSEPCatalogException):',
+   '    # grid catalog onto spatial grid\n    # grid catalog onto spatial grid\n    try:\n        _ = observed_catalog.region.magnitudes\n    except CSEPCatalogException:'))
+E('C16', 'region fallback for a missing attribute only', (BRI, '    except (AttributeError, CSEPCatalogException):', '    except AttributeError:'))
